@@ -5,18 +5,23 @@
    [cfg...]} (the hidden `_type_` field left out); the driver only guarantees the JSON typing (Boolean
    fields Boolean, ordinals integer), every judgement about it is made here.
 
-   kind = "enum"      {K, res, typed, names, cfgs, hashes}
+   kind = "enum"      {K, via, vf_intact, res, typed, names, cfgs, hashes}
                       list(all_instances(<abstract class of family K>, DEFAULT_VALIDATION_FUNCS)): name, cfg and
-                      hash() of every yielded instance, in order
+                      hash() of every yielded instance, in order.  via = how the validity rules were handed over (the
+                      library's frozendict positionally | the caller's own plain dict by keyword, second enumeration of
+                      the family in the process); vf_intact = the call left that mapping as it was
    kind = "raw"       {K, cfg, name, valid, in_enum}
                       one instance of all_instances(<class>, None) (NO validation): its name, the verdict of
                       MazeTokenizerModular.is_valid() on the default tokenizer with this element put in
                       ("T" | "F" | "raise:<Exc>"), and whether the validated enumeration yielded an equal element
-   kind = "rawcount"  {K, n}              number of instances of the unvalidated enumeration
+   kind = "rawcount"  {K, via, n}         number of instances of the unvalidated enumeration (via = None | an EMPTY mapping
+                      of validation functions, positional / keyword)
    kind = "untyped"   {K, repr}           an instance whose field dump is not JSON-typed as the space requires
-   kind = "io"        {via, cfg, name, hash, res, eq, name2, hash2, typed2, cfg2}
-                      save then load (via = "serialize" | "json" | "zanj" | "element"): the loaded object
-                      compared by ==, by name, by hash and by its raw field dump
+   kind = "io"        {via, cfg, name, hash, res, eq, name2, hash2, typed2, cfg2, arg_intact}
+                      save then load (via = "serialize" | "json" | "zanj" | "reload"): the loaded object
+                      compared by ==, by name, by hash and by its raw field dump; "reload" = the same serialized dict
+                      loaded twice, then overwritten in place, then the second loaded object read; arg_intact = the
+                      first load left the dict equal to a deep snapshot taken before
    kind = "tok"       {enumerated, cfg, name, hash, b64, valid, legacy, twin_eq, twin_name, twin_hash, procs}
                       one complete tokenizer; twin = an independently constructed equal tokenizer of the same
                       process; procs = [{seed, res, name, hash, b64}] the same configuration built in other
@@ -72,6 +77,7 @@ EnumClauses(r) ==
     \cup Flag(\A i \in 1..Len(r.cfgs) : r.cfgs[i] \in RawOf(K) => ValidOf(K, r.cfgs[i]), "enum_invalid_config")
     \cup Flag(\A i \in 1..Len(r.cfgs) : (i <= n /\ r.cfgs[i] \in RawOf(K)) => r.names[i] = NameOf(K, r.cfgs[i]), "name_differs_from_grammar")
     \cup Flag(Distinct(r.hashes), "M:element_hash_collision")
+    \cup Flag(r.vf_intact, "M:validation_funcs_argument_modified")
 
 RawClauses(r) ==
   IF r.cfg \notin RawOf(r.K) THEN {"config_outside_parameter_space"}
@@ -81,12 +87,15 @@ RawClauses(r) ==
     \cup Flag(v => r.in_enum, "enum_missing_valid_config")
     \cup Flag(r.name = NameOf(r.K, r.cfg), "name_differs_from_grammar")
 
+\* via = "reload": the same saved dict is loaded a SECOND time and overwritten in place by the caller before the loaded tokenizer
+\* is read; the statement's clauses are the same for every via.  That load leaves its argument as it was is Layer M.
 IoClauses(r) ==
-  IF r.res # "ok" THEN {"load_raises"}
-  ELSE Flag(r.eq, "loaded_not_equal")
-       \cup Flag(r.name2 = r.name, "loaded_name_differs")
-       \cup Flag(r.hash2 = r.hash, "loaded_hash_differs")
-       \cup Flag(r.typed2 /\ r.cfg2 = r.cfg, "loaded_config_differs")
+  Flag(r.arg_intact, "M:load_modifies_its_argument")
+  \cup (IF r.res # "ok" THEN {"load_raises"}
+        ELSE Flag(r.eq, "loaded_not_equal")
+             \cup Flag(r.name2 = r.name, "loaded_name_differs")
+             \cup Flag(r.hash2 = r.hash, "loaded_hash_differs")
+             \cup Flag(r.typed2 /\ r.cfg2 = r.cfg, "loaded_config_differs"))
 
 ProcClauses(r) ==
   Flag(\A i \in 1..Len(r.procs) : r.procs[i].res = "ok", "process_raises")
